@@ -36,7 +36,8 @@ EXTENDS Integers, Sequences, FiniteSets, TLC, Json
 CONSTANTS MaxH, MaxD,   \* MAX = MaxH*H + MaxD   ([2,1] symbolic, [0,19] small)
           MaxSize,      \* selection nodes per operation
           MaxCustom,    \* 0..2: how many slots get an individually chosen cost function
-          Corpus,       \* "gen": all trees up to MaxSize; "grid": the safeAdd boundary-grid operations
+          Corpus,       \* "gen": all trees up to MaxSize; "grid": the safeAdd boundary-grid operations;
+                        \* "frag": one named fragment spread several times; "hist": see ComplexityGate
           Emit          \* print (input, outcome) pairs
 
 VARIABLES pc, tree, asg, out
@@ -138,14 +139,20 @@ Range(s) == {s[i] : i \in 1..Len(s)}
 Meta == {"__typename", "__schema"}
 ArgVal == 3      \* the value of argument x when it is set (how it is delivered - literal, variable,
                  \* variable default - is chosen by the concretiser; the cost function sees the value)
+BigArg == 100    \* a large argument value (ax = "big"; only through request variables, ComplexityGate)
 
 (***************************************************************************)
 (* Selections.  [k, name, on, ax, sels]:                                   *)
-(*   k = "field":  name, ax in {"none","set"} (argument x), sels           *)
+(*   k = "field":  name, ax in {"none","set","big"} (argument x), or        *)
+(*                 "var" = the request variable $n (ComplexityGate binds   *)
+(*                 it per request), sels                                   *)
 (*   k = "inline": on = type condition ("" = none), sels                   *)
 (*   k = "spread": a spread of a named fragment `on on { sels }`; the      *)
 (*                 definition is carried in place, the renderer hoists it  *)
-(*                 (equal definitions become one fragment spread twice)    *)
+(*                 (EQUAL definitions are ONE named fragment spread         *)
+(*                 several times - corpus "frag"; every spread contributes *)
+(*                 the fragment's selections again, also when the same     *)
+(*                 fragment is spread twice in one selection set)          *)
 (***************************************************************************)
 Fld(name, ax, sels) == [k |-> "field", name |-> name, on |-> "", ax |-> ax, sels |-> sels]
 Frag(k, on, sels)   == [k |-> k, name |-> "", on |-> on, ax |-> "none", sels |-> sels]
@@ -197,7 +204,26 @@ GridTrees == {
   << Fld("node", "none", <<L("id")>>) >>,                                      \* interface max
   << Fld("node", "none", <<L("id"), Frag("inline", "B", <<L("id")>>)>>) >>     \* max, then sum
 }
-Trees == IF Corpus = "grid" THEN GridTrees ELSE GenTrees
+\* One named fragment (on A) spread several times: under sibling fields, under fields of different
+\* parent types, nested, twice in the same selection set, directly and inside another fragment, below
+\* an inline fragment and a nested field, three times; and a fragment on Query spread twice at the root.
+SpA(body) == Frag("spread", "A", body)
+FragBodies == { <<L("id")>>,
+                <<L("id"), Fld("kid", "none", <<L("id")>>)>>,
+                <<Fld("arg", "set", <<>>)>>,
+                <<L("tag"), SpA(<<L("id")>>)>> }                  \* a fragment that spreads another fragment
+FragCtx(b) ==
+  LET H == SpA(b) IN
+  { << Fld("a", "none", <<H>>), Fld("a", "none", <<H>>) >>,
+    << Fld("a", "none", <<H>>), Fld("node", "none", <<H>>) >>,
+    << Fld("a", "none", <<H, Fld("kid", "none", <<H>>)>>) >>,
+    << Fld("a", "none", <<H, H>>) >>,
+    << Fld("a", "none", <<H, SpA(<<L("name"), H>>)>>) >>,
+    << Fld("u", "none", <<Frag("inline", "A", <<H>>)>>), Fld("a", "none", <<Fld("kid", "none", <<H>>)>>) >>,
+    << Fld("a", "none", <<H>>), Fld("a", "none", <<H>>), Fld("node", "none", <<H>>) >> }
+QFrag == Frag("spread", "Query", <<Fld("a", "none", <<L("id")>>)>>)
+FragTrees == UNION {FragCtx(b) : b \in FragBodies} \cup { <<QFrag, QFrag>>, <<QFrag, L("s"), QFrag>> }
+Trees == IF Corpus = "grid" THEN GridTrees ELSE IF Corpus = "frag" THEN FragTrees ELSE GenTrees
 
 (***************************************************************************)
 (* Custom cost functions (user code: they compute on machine ints and      *)
@@ -211,12 +237,15 @@ ApplyCost(fn, child, x) ==
     [] fn.k = "mul"   -> NClampHi(NTimes(child, fn.m))      \* child * k
     [] fn.k = "sub"   -> NPlus(child, N(0, 0 - fn.c.d))     \* child - c: a value BELOW the children's cost
     [] fn.k = "arg"   -> NClampHi(NPlus(child, N(0, x)))    \* child + (value of argument x, 0 if absent)
+    [] fn.k = "argmul" -> NClampHi(NTimes(NPlus(child, One), x))  \* x * (1 + child): a list of x elements
 
 MaxM1 == NPlus(MAXN, N(0, -1))
 ConstSet == {Zero, N(0, 2), N(0, -1), Half, NPlus(Half, One), MaxM1, MAXN}
 AddSet   == {Zero, N(0, 2), MaxM1}
 BaseFamily == {Fn("const", c, 0) : c \in ConstSet} \cup {Fn("add", c, 0) : c \in AddSet}
               \cup {Fn("mul", Zero, 2), Fn("sub", One, 0)}
+FragFamily == {Fn("const", Zero, 0), Fn("const", N(0, 2), 0), Fn("const", N(0, -1), 0), Fn("add", N(0, 2), 0),
+               Fn("mul", Zero, 2), Fn("mul", Zero, 3)}
 GridConsts == SGrid
 GridFamily == {Fn("const", c, 0) : c \in GridConsts}
 
@@ -239,6 +268,7 @@ Slots(tn, sels, i) ==
 
 FamilyOf(sl) ==
   IF Corpus = "grid" THEN GridFamily
+  ELSE IF Corpus = "frag" THEN FragFamily \cup (IF sl.arg THEN {Fn("arg", Zero, 0)} ELSE {})
   ELSE BaseFamily \cup (IF sl.arg THEN {Fn("arg", Zero, 0)} ELSE {})
 
 PairAsgs(E, k) ==
@@ -257,14 +287,15 @@ Asgs(t) ==
        IN  {l \cup r : l \in PairAsgs(EntriesOf(SL), 2), r \in R}
   ELSE PairAsgs(EntriesOf(S), MaxCustom)
        \* every slot the same function (saturation everywhere, all negative, ...)
-       \cup {{[slot |-> sl.slot, fn |-> f] : sl \in S} : f \in BaseFamily}
+       \cup {{[slot |-> sl.slot, fn |-> f] : sl \in S} : f \in IF Corpus = "frag" THEN FragFamily ELSE BaseFamily}
 
 CostFn(a, slot) == IF \E e \in a : e.slot = slot THEN (CHOOSE e \in a : e.slot = slot).fn ELSE NoneFn
 
 (***************************************************************************)
 (* Cx: the documented definition.                                          *)
 (***************************************************************************)
-ArgOf(s) == IF s.ax = "set" THEN ArgVal ELSE 0
+ArgOfClass(c) == IF c = "set" THEN ArgVal ELSE IF c = "big" THEN BigArg ELSE 0
+ArgOf(s) == ArgOfClass(s.ax)
 
 \* the field rule for one concrete type
 FieldCost(a, t, f, child, x) ==
@@ -353,7 +384,11 @@ TChildren == Done => ChildrenOK(asg, "Query", tree, 1)
 \* every cost function of the family is monotone in the children's cost
 TMonotone == Done => \A t2 \in Dels(tree) : NLe(Cx(asg, t2), out.cx)
 TPerm     == Done => Cx(asg, DeepRev(tree)) = out.cx
+\* a fragment spread contributes the fragment's selections at EVERY spread: expanding each spread in
+\* place (SwapFrag turns every spread into the inline fragment with the same selections) changes nothing
 TFragment == Done => Cx(asg, SwapFrag(tree)) = out.cx
+\* ... so selecting everything twice (every named fragment is then spread twice as often) costs twice
+TDouble   == Done => Cx(asg, tree \o tree) = SAdd(out.cx, out.cx)
 TGate     == Done => \A g \in out.gate :
                         /\ g.rej <=> NLt(g.lim, out.cx)
                         /\ g.rej => g.runs = {}
